@@ -365,6 +365,9 @@ func vfC20A(w *vfWorld) {
 	}
 	w.sched.steps += steps
 	w.nontriv = cs.Reloads > 0
+	for _, pn := range w.watch.Panics() {
+		w.violate("C20", "reload-panic", "", "a reload action panicked (on the real watcher goroutine this ends the process; the previous contents are gone with it): %s", pn)
+	}
 	vfC20Check(w, "htpasswd", versions, history, "reload-ht", "validate")
 	vfC20Check(w, "authenticated-emails", versions, history, "reload-em", "isvalid")
 	w.distKey = fmt.Sprintf("A/%d/%d/%d", cs.Waves, cs.Ops, steps)
